@@ -949,6 +949,43 @@ pub fn closed_sampling_race(opk: usize, items: usize, error: bool, seed: u64, st
   (problem, out, name)
 }
 
+/// one subject, several subscribers: once a terminal has been delivered to anybody no item is
+/// delivered to anybody, and whoever received an item and did not leave receives the terminal
+pub fn terminal_consistency(o: &Outcome) -> Option<(String, serde_json::Value)> {
+  if o.evs.iter().any(|e| matches!(e.k, K::Mark("term_call", 99))) {
+    return None; // subject-level unsubscribe(): no terminal is owed to anybody
+  }
+  let ids = probe_ids(&o.evs);
+  let first_term = o.evs.iter().find(|e| ids.contains(&e.id) && matches!(&e.k, K::N(n) if n.is_terminal()));
+  if let Some(t) = first_term {
+    if let Some(late) = o.evs.iter().find(|e| ids.contains(&e.id) && e.seq > t.seq && matches!(e.k, K::N(N::Next(_)))) {
+      return Some((
+        "item_after_terminal".into(),
+        json!({"why": format!("probe {} received {:?} at stamp {} after probe {} had received {:?} at stamp {}", late.id, late.k, late.seq, t.id, t.k, t.seq)}),
+      ));
+    }
+  }
+  let term_ret = o.evs.iter().filter(|e| matches!(e.k, K::Mark("term_ret", _))).map(|e| e.seq).min();
+  if let Some(tr) = term_ret {
+    // subscriptions: probe id -> unsubscribe call stamp (if any)
+    for e in &o.evs {
+      if let K::Mark("sub_ret", x) = e.k {
+        let (id, k) = ((x / 100) as u32, x % 100);
+        let ucall = mark_seq(&o.evs, "unsub_call", k);
+        let got_item = o.evs.iter().any(|ev| ev.id == id && matches!(ev.k, K::N(N::Next(_))));
+        let got_term = o.evs.iter().any(|ev| ev.id == id && matches!(&ev.k, K::N(n) if n.is_terminal()));
+        if got_item && !got_term && ucall.map_or(true, |u| u > tr) {
+          return Some((
+            "terminal_missing".into(),
+            json!({"why": format!("probe {} received items, was not unsubscribed before the terminal call returned (stamp {}), and never received a terminal", id, tr)}),
+          ));
+        }
+      }
+    }
+  }
+  None
+}
+
 /// C02: nothing *begins* on a probe after its unsubscribe() returned
 pub fn after_unsub(o: &Outcome) -> Option<(String, serde_json::Value)> {
   for e in &o.evs {
